@@ -233,6 +233,11 @@ def step (line : String) : String :=
       let r := pBits (kv.get "R")
       let q := pBits (kv.get "Q")
       ",".intercalate ((corrValid r q).map toString) ++ " N=" ++ ",".intercalate ((norm2 r q).map toString)
+    | "TOPN" =>
+      let bins := kv.ints "B"
+      let hs := kv.ints "H"
+      let out := createPeaks (kv.int "count") (kv.int "res") (kv.int "start") (List.zip bins hs)
+      ",".intercalate ((isort (fun (p : Int × Int) => p.1) out).map fun p => s!"{p.1}:{p.2}")
     | "TOBP" => toString (toBp (kv.int "bin") (kv.int "res") (kv.int "start"))
     | "SELECT" =>
       let sc := kv.ints "S"
@@ -253,7 +258,9 @@ def step (line : String) : String :=
       if checkOverlap (pRowT (kv.get "A")) (pRowT (kv.get "B")) (kv.int "diff") then "1" else "0"
     | "JOINROWS" =>
       exc (joinRows (pParams kv) (pRowT (kv.get "A")) (pRowT (kv.get "B"))) fun r =>
-        match r with | some row => showRow row | none => "None"
+        match r with
+        | some row => exc (cigarOf aggregate row.pairs) fun c => showRow row ++ " cigar=" ++ c
+        | none => "None"
     | "RESOLVEROWS" =>
       exc (resolveRows (pParams kv) (kv.int "diff") (pRows (kv.get "ROWS"))) fun (j, s) =>
         s!"J={showRows j} S={showRows s}"
